@@ -3,5 +3,5 @@
 ID=$1; RUNS=${2:-}
 for m in /verif/mutants/$ID-*.diff; do
   if [ -n "$RUNS" ]; then export VERIF_RUNS=$RUNS; fi
-  VERIF_NO_CROSS=1 timeout 1800 /verif/tools/mutant.sh "$m" "$ID" quick 2>&1 | grep -E "VIOLATION|clause=|MUTANT|HARNESS" | head -6
+  VERIF_NO_CROSS=1 timeout 1800 /verif/tools/mutant.sh "$m" "$ID" quick 2>&1 | grep -E "VIOLATION|clause=|MUTANT|HARNESS" | awk "NR<=4 || /MUTANT|HARNESS/"
 done
